@@ -14,7 +14,9 @@
                                                  (Tables_f24.dict_word_count / dict_digest): "count digest(hex)"
      M w                                         is w in Tables_f24.dict_nonsimple_entries (rebuilt entries that are not simple words)? 1 / 0
      NC                                          length of dict_nonsimple_entries
-     B w                                         simple_wordb / alnum_wordb under the R tables: e.g. "01" *)
+     B w                                         simple_wordb / alnum_wordb under the R tables: e.g. "01"
+     S item ; item ; ..                          C06Sentence.run_sentence under the R tables; item = "w cps" | "s n" | "p cp";
+                                                 prints "N" (not a sentence of the class) | "text cps | word spans" *)
 (* N -> 16 hex digits (dict_digest does not fit OCaml's 63-bit int) *)
 let hex_of_n (x : n) : string =
   let rec bits p = match p with XH -> [1] | XO q -> 0 :: bits q | XI q -> 1 :: bits q in
@@ -144,6 +146,17 @@ let () =
         let w = text_of_line body in
         let b x = if x then "1" else "0" in
         print_endline (b (simple_wordb (uni_now ()) w) ^ b (alnum_wordb (uni_now ()) w))
+    | 'S' ->
+        let item_of it =
+          match List.filter (fun w -> w <> "") (String.split_on_char ' ' it) with
+          | "w" :: cs -> SWord (List.map (fun c -> n_of_int (int_of_string c)) cs)
+          | ["s"; k] -> SSpace (nat_of_int (int_of_string k))
+          | ["p"; c] -> SPunct (n_of_int (int_of_string c))
+          | _ -> failwith "bad item" in
+        let its = List.map item_of (nonempty (split_on ';' body)) in
+        (match run_sentence (uni_now ()) its with
+         | None -> print_endline "N"
+         | Some (txt, ws) -> print_endline (String.trim (line_of_text txt) ^ " | " ^ (if ws = [] then "-" else show_spans ws)))
     | 'W' ->
         print_endline (String.concat " | "
           [show_entries f24_dict; line_of_text w_socio_political; show_spans f24_words; show_lints f24_run])
